@@ -316,11 +316,14 @@ impl Device {
         std::fs::create_dir_all(dir).unwrap();
         let paths = Paths::new_client(dir);
         let target = client_target(&paths, db).await;
-        let mut account = LocalAccount::new_account("harness".to_string(), password(), target)
-            .await
-            .expect("new_account");
+        let mut account = LocalAccount::new_account_with_builder("harness".to_string(), password(), target, |b| {
+            b.create_file_password(true).create_archive(true)
+        })
+        .await
+        .expect("new_account");
         let key: sos_core::crypto::AccessKey = password().into();
         account.sign_in(&key).await.expect("sign_in");
+        let _ = account.initialize_search_index().await;
         Self::wrap(name, dir, account, server, gate)
     }
     /// further devices: a copy of the first device's data directory, signed in
@@ -330,6 +333,7 @@ impl Device {
         let mut account = LocalAccount::new_unauthenticated(account_id, target).await.expect("open");
         let key: sos_core::crypto::AccessKey = password().into();
         account.sign_in(&key).await.expect("sign_in");
+        let _ = account.initialize_search_index().await;
         Self::wrap(name, dir, account, server, gate)
     }
     fn wrap(name: &str, dir: &Path, account: LocalAccount, server: Arc<Server>, gate: Gate) -> Device {
